@@ -13,7 +13,9 @@ ENTRY = {
              'They consume the source fact "the digest comparison covers bytes read from the cache" (true only after the fix: commit in /repo). '
              'Enumerated: random command histories by 4 clients (owner/shared/independent key, second repository) x 11 cache variants (separate, warm, '
              'shared by all keys and both repositories, every entry removed/empty/1 byte/half/len-1/other snapshot\'s bytes/garbage/mixed before every '
-             'command) compared observation by observation with the cache-less run, and with the model (outcome, visible snapshots, state of every entry).'),
+             'command) compared observation by observation with the cache-less run, and with the model (outcome, visible snapshots, state of every entry); '
+             'histories with a planted snapshot object that does not hash to its name (all clients must fail alike); a crowded cache sub-directory '
+             'loaded cold by 4 threads whose cache writes are forced to overlap.'),
     'note': ('The cache model covers the snapshot cache (the only cache replicat has). Crashes of the process while it writes an entry are represented by '
              'their result (any prefix of the contents); a cache directory that cannot be read/written at all (permissions, a directory in place of '
              'a file) is outside the statement. Histories are sampled.'),
